@@ -469,27 +469,199 @@ def check_filter_boundaries(extra=()):
     return None
 
 
-def check_misc_filter():
-    """Extension / pattern / full-path clauses and get_full_path on a small lattice."""
+EXT_NAMES = ["a.PDF", "a.pdf", "b.Docx", "pdf", "x.pdf.bak", "Ü.PdF", "backup.tar.gz", "BACKUP.TAR.GZ", "plain.gz", "types.d.ts",
+             "main.ts", "noext", ".hidden", "a.b.c", "v1.2.docx", "trailing.", "a.pdf ", "dir.d/x"]
+EXT_SETS = [[".pdf"], [".PDF", ".docx"], [".tar.gz"], [".Tar.Gz", ".docx"], [".gz"], [".d.ts"], [".ts"], [".pdf.bak"], [".bak"],
+            ["pdf"], ["gz", ".c"], [""], ["."], ["x.pdf.bak"], [".hidden"], [".b.c"], [".2.docx"], []]
+PARENTS = [None, "", "Docs", "Docs/sub", "My Folder", "a.pdf", "*"]
+PATTERN_SETS = [["*.pdf"], ["Docs/*"], ["*/sub/*", "a.*"], ["Docs*"], ["a.pdf"], ["[ab].*"], ["?.pdf"], ["*"], []]
+
+
+def check_one_filter(fd, n, pp):
     from sharepoint2text.sharepoint_io.client import FileFilter, SharePointFileMetadata
-    names = ["a.PDF", "a.pdf", "b.Docx", "pdf", "x.pdf.bak", "Ü.PdF"]
-    parents = [None, "", "Docs", "Docs/sub", "My Folder"]
-    fds = [{"extensions": [".pdf"]}, {"extensions": [".PDF", ".docx"]}, {"path_patterns": ["*.pdf"]}, {"path_patterns": ["Docs/*"]},
-           {"path_patterns": ["*/sub/*", "a.*"]}, {"extensions": [".pdf"], "path_patterns": ["Docs*"]}, {"extensions": []}, {}]
-    for n in names:
-        for pp in parents:
+    meta = SharePointFileMetadata(name=n, id="1", web_url="u", parent_path=pp)
+    want = spec_matches(fd, (n, pp, None, None))
+    try:
+        got = FileFilter(**fd).matches(meta)
+    except Exception as e:  # noqa
+        got = f"{type(e).__name__}: {e}"
+    if got != want:
+        return {"target": "sharepoint2text/sharepoint_io/client.py::FileFilter.matches",
+                "inputs": {"filter": fd, "file": {"name": n, "parent_path": pp}},
+                "expected": f"matches == {want} (case-insensitive suffix / fnmatch on the full path)", "observed": f"matches == {got}"}
+    return None
+
+
+def check_misc_filter(extra=()):
+    """Extension / pattern / full-path clauses and get_full_path on a directed lattice: single and multi-part
+    extensions, extensions without a dot, empty ones, names with several dots / none / a leading dot."""
+    from sharepoint2text.sharepoint_io.client import SharePointFileMetadata
+    for (fd, n, pp) in extra:
+        r = check_one_filter(fd, n, pp)
+        if r is not None:
+            return r
+    for n in EXT_NAMES:
+        for pp in PARENTS:
             meta = SharePointFileMetadata(name=n, id="1", web_url="u", parent_path=pp)
             want_fp = f"{pp}/{n}" if pp else n
             if meta.get_full_path() != want_fp:
                 return {"target": "client.py::SharePointFileMetadata.get_full_path", "inputs": {"name": n, "parent_path": pp},
                         "expected": want_fp, "observed": meta.get_full_path()}
-            for fd in fds:
-                want = spec_matches(fd, (n, pp, None, None))
-                got = FileFilter(**fd).matches(meta)
-                if got != want:
-                    return {"target": "client.py::FileFilter.matches", "inputs": {"filter": fd, "file": {"name": n, "parent_path": pp}},
-                            "expected": f"matches == {want}", "observed": f"matches == {got}"}
+            for exts in EXT_SETS:
+                r = check_one_filter({"extensions": exts}, n, pp)
+                if r is not None:
+                    return r
+    for n in EXT_NAMES:
+        for pp in PARENTS:
+            for pats in PATTERN_SETS:
+                for exts in ([], [".pdf"], [".tar.gz", "pdf"]):
+                    r = check_one_filter({"extensions": exts, "path_patterns": pats}, n, pp)
+                    if r is not None:
+                        return r
     return None
+
+
+def witness_filters(w):
+    """Candidate (filter, name, parent) triples from a solver witness of the FileFilter.matches obligation: the model's
+    name / extensions / patterns, plus variants (the uninterpreted `lower` / `fnmatch` of the model need not be real)."""
+    out = []
+    if not isinstance(w, dict):
+        return out
+    fm = w.get("file_meta") if isinstance(w.get("file_meta"), dict) else {}
+    names = [x for x in [fm.get("name")] if isinstance(x, str)]
+    def lst(key):
+        d = w.get(key)
+        if isinstance(d, dict) and isinstance(d.get("len"), int) and isinstance(d.get("first"), list):
+            return [x for x in d["first"][:max(0, min(d["len"], 3))] if isinstance(x, str)]
+        return []
+    exts, pats = lst("extensions"), lst("path_patterns")
+    for n in names + [x + y for x in names for y in exts][:4]:
+        for pp in (None, "Docs"):
+            out.append(({"extensions": exts, "path_patterns": pats}, n, pp))
+    return out
+
+
+# ---- which folders a filter searches -----------------------------------------------------------------------
+TARGET_VOCAB = ["Reports", "Reports 2024", "Docs", "Docs/Q1", "Docs/Q10", "Docs/Q1 & Q2", "/Docs/", "Docs/", "a", "ab", "a/b", "a b",
+                "Archive", "Reports/Drafts", "reports", "Doc"]
+
+
+def covers_py(t, p):
+    a, b = p.strip("/"), t.strip("/")
+    return a == b or b == "" or a.startswith(b + "/")
+
+
+def check_targets_once(paths):
+    from sharepoint2text.sharepoint_io.client import FileFilter
+    try:
+        got = list(FileFilter(folder_paths=list(paths)).get_target_folders())
+    except Exception as e:  # noqa
+        return _tf(paths, "a list of target folders", f"{type(e).__name__}: {e}")
+    extra = [t for t in got if t not in paths]
+    if extra:
+        return _tf(paths, "every target is a requested folder path", f"targets {got}: {extra} not requested")
+    lost = [p for p in paths if not any(covers_py(t, p) for t in got)]
+    if lost:
+        return _tf(paths, "every requested folder is searched (it is a target or lies below one, component-wise)",
+                   f"targets {got}: requested {lost} not covered")
+    dis = lambda xs: all(not covers_py(xs[i], xs[k]) for i in range(len(xs)) for k in range(len(xs)) if i != k)  # noqa
+    if dis(list(paths)) and not dis(got):
+        return _tf(paths, "non-overlapping requests give non-overlapping targets", f"targets {got}")
+    return None
+
+
+def _tf(paths, expected, observed):
+    return {"target": "sharepoint2text/sharepoint_io/client.py::FileFilter.get_target_folders",
+            "inputs": {"folder_paths": list(paths)}, "expected": expected, "observed": observed}
+
+
+def check_target_folders(extra=()):
+    import itertools
+    for paths in list(extra) + [[]] + [[v] for v in TARGET_VOCAB]:
+        r = check_targets_once(paths)
+        if r is not None:
+            return r
+    for n in (2, 3):
+        for paths in itertools.permutations(TARGET_VOCAB[:12] if n == 3 else TARGET_VOCAB, n):
+            r = check_targets_once(list(paths))
+            if r is not None:
+                return r
+    return None
+
+
+def crafted_tree():
+    """Siblings whose names are textual prefixes of each other, at two levels."""
+    ids = iter(f"C{i:02d}" for i in range(100))
+
+    def folder(name, files, subs=()):
+        f = Node("folder", name, next(ids))
+        for fn in files:
+            early, late = "2024-01-15T10:29:59.5Z", "2024-01-15T10:30:00.5Z"
+            flip = len(fn) % 2 == 0          # some files created before / modified after the bound, some the other way round
+            f.children.append(Node("file", fn, next(ids), createdDateTime=late if flip else early, lastModifiedDateTime=early if flip else late))
+        f.children.extend(subs)
+        return f
+    root = Node("folder", "", "ROOT")
+    root.children = [Node("file", "top.txt", "T0"),
+                     folder("Reports", ["r1.pdf", "r2.txt"], [folder("Drafts", ["draft.pdf"])]),
+                     folder("Reports 2024", ["q1.pdf", "q2.pdf"], [folder("Final", ["final.pdf"])]),
+                     folder("Docs", [], [folder("Q1", ["a.pdf"]), folder("Q10", ["b.pdf", "c.txt"]), folder("Q1 & Q2", ["d.pdf"])]),
+                     folder("Archive", ["old.pdf"])]
+    return root
+
+
+CRAFTED_TARGETS = [["Reports", "Reports 2024"], ["Reports 2024", "Reports"], ["Docs/Q1", "Docs/Q10", "Docs/Q1 & Q2"], ["Docs/Q10", "Archive", "Docs/Q1"],
+                   ["Archive"], ["Reports/Drafts", "Reports 2024/Final", "nope"], ["Docs", "Reports"]]
+
+
+def check_crafted(targets=None, extra_filter=None):
+    """End to end on the crafted library: list_files_filtered / list_files_modified_since / list_files_created_since
+    over disjoint requested folders return every file of every requested folder exactly once."""
+    root = crafted_tree()
+    for tg in ([targets] if targets else CRAFTED_TARGETS):
+        for page, exts in ((1, None), (3, [".PDF"])):
+            for api in ("filtered", "modified_since", "created_since"):
+                fd = {"folder_paths": tg}
+                if exts:
+                    fd["extensions"] = exts
+                if api == "modified_since":
+                    fd["modified_after"] = BASE
+                if api == "created_since":
+                    fd["created_after"] = BASE
+                want = sorted(reference(root, "filtered", fd))
+                g = FakeGraph(root, page)
+                c = make_client(g)
+                try:
+                    if api == "filtered":
+                        got = [rec_of(m) for m in c.list_files_filtered(mk_filter(fd))]
+                    elif api == "modified_since":
+                        got = [rec_of(m) for m in c.list_files_modified_since(BASE, folder_paths=tg, extensions=exts)]
+                    else:
+                        got = [rec_of(m) for m in c.list_files_created_since(BASE, folder_paths=tg, extensions=exts)]
+                except Exception as e:  # noqa
+                    got = f"{type(e).__name__}: {e}"
+                if not isinstance(got, list) or sorted(got) != want:
+                    missing = [r for r in want if not isinstance(got, list) or r not in got]
+                    return {"target": "sharepoint2text/sharepoint_io/client.py::SharePointRestClient.list_files_" +
+                                      {"filtered": "filtered", "modified_since": "modified_since", "created_since": "created_since"}[api],
+                            "inputs": {"library": "crafted_tree()", "folder_paths": tg, "page_size": page, "api": api, "since": BASE.isoformat(),
+                                       "extensions": exts},
+                            "expected": f"every file of every requested folder exactly once ({len(want)} records)",
+                            "observed": f"{got if not isinstance(got, list) else len(got)} records; missing={missing[:4]}"}
+    return None
+
+
+def check_known_overlap(witness):
+    """Known finding C18-overlapping-targets: a requested folder together with one of its descendants is walked twice."""
+    tg = (witness or {}).get("folder_paths") or ["Docs", "Docs/Q1"]
+    root = crafted_tree()
+    c = make_client(FakeGraph(root, 2))
+    got = [rec_of(m) for m in c.list_files_filtered(mk_filter({"folder_paths": tg}))]
+    dup = sorted({r for r in got if got.count(r) > 1})
+    if dup:
+        return {"reproduced": True, "target": "client.py::SharePointRestClient.list_files_filtered", "inputs": {"library": "crafted_tree()", "folder_paths": tg},
+                "expected": "every matching file exactly once", "observed": f"{len(got)} records, listed twice: {dup[:3]}"}
+    return {"reproduced": False, "note": f"no file listed twice for folder_paths={tg}"}
 
 
 def check_parse_assumptions():
@@ -527,7 +699,7 @@ def listing_filters():
 
 
 def suite(seeds=range(6), fault_seeds=range(3), quick=False):
-    r = check_parse_assumptions() or check_misc_filter() or check_filter_boundaries()
+    r = check_parse_assumptions() or check_misc_filter() or check_filter_boundaries() or check_target_folders() or check_crafted()
     if r is not None:
         return r
     for seed in seeds:
@@ -573,8 +745,18 @@ def witness_stamps(w):
 
 def find(req):
     ob = req.get("obligation") or ""
-    if "_parse_iso_datetime" in ob or "FileFilter.matches" in ob:
-        r = check_filter_boundaries(extra=witness_stamps(req.get("witness")))
+    if req.get("known_finding") == "C18-overlapping-targets":
+        return check_known_overlap(req.get("witness"))
+    if "get_target_folders" in ob or "_since" in ob:
+        r = (check_target_folders() if "get_target_folders" in ob else None) or check_crafted()
+        if r is None:
+            return {"reproduced": False, "note": "target-folder lattice (permutations of 16 paths, length <= 3) and crafted library agree with the reference"}
+        r["reproduced"] = True
+        return r
+    if "_parse_iso_datetime" in ob or "FileFilter.matches" in ob or "get_full_path" in ob:
+        r = check_misc_filter(extra=witness_filters(req.get("witness"))) if "matches" in ob else None
+        if r is None:
+            r = check_filter_boundaries(extra=witness_stamps(req.get("witness")))
         if r is None:
             r = check_misc_filter()
     elif "fetch_access_token" in ob:
@@ -604,7 +786,13 @@ def rerun(stored):
             field = "created" if which[0].startswith("created") else "last_modified"
             r = check_matches_once(inp["file"][field], fd[which[0]], which[0])
         else:
-            r = check_misc_filter()
+            r = check_one_filter(fd, inp["file"].get("name", ""), inp["file"].get("parent_path"))
+        return dict(r or {}, reproduced=r is not None)
+    if "folder_paths" in inp and "library" not in inp:
+        r = check_targets_once(inp["folder_paths"])
+        return dict(r or {}, reproduced=r is not None)
+    if inp.get("library") == "crafted_tree()":
+        r = check_crafted(inp["folder_paths"])
         return dict(r or {}, reproduced=r is not None)
     if "seed" in inp:
         f = inp.get("fault")
